@@ -345,8 +345,9 @@ class Grammar:
             for prod in prods:
                 weights[prod] += learning_rate * extra_weights[prod]
                 total_weights += weights[prod]
-            for prod in prods:
-                weights[prod] = weights[prod] / total_weights
+            if total_weights > 0:
+                for prod in prods:
+                    weights[prod] = weights[prod] / total_weights
 
         for weight in weights:
             assert weights[weight] >= 0 and weights[weight] <= 1
